@@ -25,7 +25,7 @@ RULE = ('strata: S = every token sequence up to the length bound over {(,),and,o
         'quoted string}; T = one-token rules; E = one-edit corruptions (delete/insert/replace/unbalance) of grammatical '
         'sentences; R = random ASCII/Unicode strings built from rule fragments, exotic whitespace, quotes, full-width '
         'parentheses; V = JSON/YAML scalars and containers as rule values, alone and inside lists, through parse_rule, '
-        'Rules.from_dict, Rules.load (JSON and YAML text) and a file-backed Enforcer; LS = lists of arbitrary strings and lists of strings (must load and evaluate). Each rule is enforced under the '
+        'Rules.from_dict, Rules.load (JSON and YAML text) and a file-backed Enforcer; LS = lists of arbitrary strings and lists of strings (must load and evaluate); O = a malformed rule or non-rule value loaded and enforced by one thread while another thread loads a permissive well-formed rule (pre-emption at sampled line boundaries, deterministic scheduler). Each rule is enforced under the '
         'empty, single-role, all-role and an "everything" credential. Non-trivial = the recogniser rejects the string, '
         'or the value is not a string/list-of-strings; distinct = distinct rule value and transport.')
 ASSUMPTIONS = [
@@ -38,7 +38,7 @@ LEVEL_TEXT = ('All rejected token sequences up to 6 (thorough: 7, and 8 over the
               'sample the rest. "Denies for every credential" over an infinite input set is reachable only by such a sweep.')
 LEVEL_NOTE = 'trusted: the independent recogniser; PyYAML/JSON as transports; probe credentials stand for "every credential"'
 PLAN = {'quick': dict(shards=8, wall=70), 'thorough': dict(shards=16, wall=500)}
-MIN = {'evaluations': 1000, 'rejected_strings': 500, 'accepted_strings': 100, 'nonrule_values': 30, 'string_lists': 100, 'enforce_calls': 5000}
+MIN = {'overlapping_evaluations': 200, 'evaluations': 1000, 'rejected_strings': 500, 'accepted_strings': 100, 'nonrule_values': 30, 'string_lists': 100, 'enforce_calls': 5000}
 ANCHORS = ['oslo_policy._parser:parse_rule', 'oslo_policy._parser:_parse_text_rule', 'oslo_policy._parser:_parse_check',
            'oslo_policy._parser:_parse_list_rule', 'oslo_policy.policy:Rules.load', 'oslo_policy.policy:Rules.from_dict',
            'oslo_policy.policy:Enforcer.enforce', 'oslo_policy.policy:parse_file_contents']
@@ -60,6 +60,7 @@ class Real:
         self._parser = _parser
         self.conf = env.fresh_conf()
         self.enf = policy.Enforcer(self.conf, use_conf=False)
+        self.enf2 = policy.Enforcer(env.fresh_conf(), use_conf=False)
         self.calls = 0
 
     def load(self, value, via):
@@ -600,14 +601,73 @@ def run(ctx):
         via = 'dict' if rnd.random() < 0.8 else rnd.choice(['file-json', 'load-json', 'parse_rule'])
         check_string_list(ctx, real, value, dict(s='LS', value=value, via=via))
     ctx.stratum('LS', exhaustive=False)
+    # O: overlapping loads, last (the line-level scheduler slows everything that runs after it is installed)
+    from pv.mon import sched
+    ctx.stratum('O', exhaustive=False)
+    try:
+        for i in range(OVERLAPS[ctx.tier]):
+            if ctx.expired():
+                break
+            r = ctx.sub_rnd('O', ctx.tier, ctx.shard, i)
+            check_overlap(ctx, real, dict(s='O', bad=r.choice(OVERLAP_BAD), good=r.choice(OVERLAP_GOOD), bad_first=r.random() < 0.5,
+                                          rseed='%s.%d.%d' % (ctx.tier, ctx.shard, i)))
+    finally:
+        sched.uninstall()
     for k, v in contracts.EVALS.items():
         ctx.count('contract_evals.' + k, v)
+
+
+OVERLAP_BAD = ['not', '(', ')', 'and', 'or', '"q"', "'q'", 'role:r0 role:r1', '(role:r0', 'role:r0)', 'not not', 'role:r0 and',
+               'or role:r0', '((', 'not (', 'role:r0 or or role:r1', '@ !', 'not and', '@ @', '( @', '@ )', 'foobar', 'not foobar or',
+               None, False, 0, 1.5, {'@': 1}, [['@', 5]], [[None]], [{'@': 1}], [[['@']]]]
+OVERLAP_GOOD = ['@', '', 'role:r0 or @', 'not !', '(@)', '@ or @', 'role:r0 or not role:r0', [], [['@']], [[], ['@']],
+                'role:r1 or (@ and @)', 'not (role:r0 and !)']
+OVERLAPS = {'quick': 6, 'thorough': 120}
+
+
+def check_overlap(ctx, real, case):
+    """A malformed rule (or non-rule value) is loaded and enforced by one thread while another thread loads and enforces a
+    permissive, well-formed rule: the malformed one still denies everybody (or is rejected), the permissive one still allows."""
+    from pv.mon import overlap
+    bad, good = case['bad'], case['good']
+    creds = [{'roles': []}, {'roles': ['r0']}, EVERYTHING]
+    P = real.policy
+
+    def mk(value, enf):
+        def make():
+            def run_():
+                try:
+                    enf.set_rules(P.Rules.from_dict({'p': value}))
+                except Exception:
+                    return 'rejected-at-load'
+                out = []
+                for c in creds:
+                    try:
+                        out.append(bool(enf.enforce('p', dict(TARGET), json.loads(json.dumps(c)))))
+                    except Exception as e:
+                        out.append('EXC:' + type(e).__name__)
+                return out
+            return run_
+        return make
+    first, second = (mk(bad, real.enf), mk(good, real.enf2)) if case['bad_first'] else (mk(good, real.enf2), mk(bad, real.enf))
+    ctx.case(['O', repr(bad), repr(good), case['bad_first']], True, 'O')
+    detail = {'malformed_or_nonrule_value': bad, 'permissive_rule': good, 'pre-empted_operation': 'malformed' if case['bad_first'] else 'permissive'}
+    if overlap.pair(ctx, first, second, case, detail, ctx.sub_rnd('Ob', case['rseed']), limit=100):
+        got = mk(bad, real.enf)()()
+        ctx.count('enforce_calls', 3)
+        if got != 'rejected-at-load' and got != [False, False, False]:
+            key = 'nonrule-value-allows' if not isinstance(bad, str) else 'rejected-sentence-allows'
+            if any(isinstance(g, str) for g in got):
+                key = 'rejected-sentence-enforce-raises'
+            ctx.violation(key, case, dict(detail, observed=got))
 
 
 def replay(ctx, case):
     contracts.parse_rule_returns_check()
     real = Real()
     s = case.get('s')
+    if s == 'O':
+        return check_overlap(ctx, real, case)
     if s == 'LS':
         check_string_list(ctx, real, case['value'], case)
     elif s == 'V':
